@@ -8,35 +8,58 @@ open Refinery
 
 /-! ## codec -/
 
-theorem indexOf_append {b : UInt8} {pre : Bytes} (post : Bytes) (h : b ∉ pre) :
-    indexOf b (pre ++ b :: post) = some pre.length := by
-  induction pre with
-  | nil => simp [indexOf]
+theorem lastIndexOf_none {b : UInt8} {l : Bytes} (h : b ∉ l) : lastIndexOf b l = none := by
+  induction l with
+  | nil => rfl
   | cons x t ih =>
     have hx : x ≠ b := fun e => h (by simp [e])
     have ht : b ∉ t := fun e => h (by simp [e])
-    simp [indexOf, hx, ih ht]
+    simp [lastIndexOf, ih ht, hx]
 
-theorem indexOf_some {b : UInt8} {l : Bytes} {i : Nat} (h : indexOf b l = some i) :
-    ∃ pre post, l = pre ++ b :: post ∧ pre.length = i ∧ b ∉ pre := by
+theorem lastIndexOf_append {b : UInt8} (pre : Bytes) {post : Bytes} (h : b ∉ post) :
+    lastIndexOf b (pre ++ b :: post) = some pre.length := by
+  induction pre with
+  | nil => simp [lastIndexOf, lastIndexOf_none h]
+  | cons x t ih => simp [lastIndexOf, ih]
+
+theorem lastIndexOf_some {b : UInt8} {l : Bytes} {i : Nat} (h : lastIndexOf b l = some i) :
+    ∃ pre post, l = pre ++ b :: post ∧ pre.length = i ∧ b ∉ post := by
   induction l generalizing i with
-  | nil => simp [indexOf] at h
+  | nil => simp [lastIndexOf] at h
   | cons x t ih =>
-    unfold indexOf at h
-    by_cases hx : x = b
-    · simp [hx] at h
-      exact ⟨[], t, by simp [hx], by simp [h], by simp⟩
-    · simp only [hx, if_false] at h
-      cases hi : indexOf b t with
-      | none => simp [hi] at h
-      | some j =>
-        simp [hi] at h
-        obtain ⟨pre, post, h1, h2, h3⟩ := ih hi
-        refine ⟨x :: pre, post, by simp [h1], by simp [h2, h], ?_⟩
-        intro hm
-        rcases List.mem_cons.mp hm with e | e
-        · exact hx e.symm
-        · exact h3 e
+    unfold lastIndexOf at h
+    cases hi : lastIndexOf b t with
+    | some j =>
+      simp [hi] at h
+      obtain ⟨pre, post, h1, h2, h3⟩ := ih hi
+      exact ⟨x :: pre, post, by simp [h1], by simp [h2, h], h3⟩
+    | none =>
+      simp only [hi] at h
+      by_cases hx : x = b
+      · simp [hx] at h
+        have hnot : b ∉ t := by
+          intro hm
+          -- a member has a last occurrence
+          have : ∀ (l : Bytes), b ∈ l → lastIndexOf b l ≠ none := by
+            intro l
+            induction l with
+            | nil => intro h; simp at h
+            | cons y u ihu =>
+              intro hmem
+              unfold lastIndexOf
+              cases hu : lastIndexOf b u with
+              | some k => simp
+              | none =>
+                by_cases hy : y = b
+                · simp [hy]
+                · have : b ∈ u := by
+                    rcases List.mem_cons.mp hmem with e | e
+                    · exact absurd e.symm hy
+                    · exact e
+                  exact absurd hu (ihu this)
+          exact this t hm hi
+        exact ⟨[], t, by simp [hx], by simp [h], hnot⟩
+      · simp [hx] at h
 
 theorem register_ne_comma : Action.register.byte ≠ comma := by decide
 theorem unregister_ne_comma : Action.unregister.byte ≠ comma := by decide
@@ -47,13 +70,14 @@ theorem byte_ne_comma (a : Action) : a.byte ≠ comma := by
   · exact register_ne_comma
   · exact unregister_ne_comma
 
-/-- decoding what `marshal` wrote, for an address without a comma -/
-theorem unmarshal_marshal_of_no_comma (c : Cmd) (h : comma ∉ c.address) :
+/-- decoding what `marshal` wrote, for an id without a comma (any address) -/
+theorem unmarshal_marshal_of_no_comma (c : Cmd) (h : comma ∉ c.id) :
     unmarshal (marshal c) = some c := by
   obtain ⟨act, id, addr⟩ := c
   simp only at h
-  have hidx : indexOf comma (marshal ⟨act, id, addr⟩) = some (addr.length + 1) := by
-    simp only [marshal, indexOf, byte_ne_comma act, if_false, indexOf_append id h, Option.map_some]
+  have hidx : lastIndexOf comma (marshal ⟨act, id, addr⟩) = some (addr.length + 1) := by
+    have := lastIndexOf_append (b := comma) (act.byte :: addr) h
+    simpa [marshal] using this
   unfold unmarshal
   rw [hidx]
   cases act with
@@ -62,22 +86,22 @@ theorem unmarshal_marshal_of_no_comma (c : Cmd) (h : comma ∉ c.address) :
   | unregister =>
     simp [marshal, unregister_ne_register]; omega
 
-/-- the wire string does not say where the address ends: a comma in the address is read as the
+/-- the wire string does not say which comma separates: a comma in the id is read as the
 separator -/
-theorem marshal_comma_ambiguous (act : Action) (id pre post : Bytes) :
-    marshal ⟨act, id, pre ++ comma :: post⟩ = marshal ⟨act, post ++ comma :: id, pre⟩ := by
+theorem marshal_comma_ambiguous (act : Action) (addr pre post : Bytes) :
+    marshal ⟨act, pre ++ comma :: post, addr⟩ = marshal ⟨act, post, addr ++ comma :: pre⟩ := by
   simp [marshal]
 
 /-- every message `unmarshal` accepts is the marshalling of the command it returns, and the
-address it returns has no comma -/
+id it returns has no comma -/
 theorem unmarshal_sound {m : Bytes} {c : Cmd} (h : unmarshal m = some c) :
-    marshal c = m ∧ comma ∉ c.address := by
+    marshal c = m ∧ comma ∉ c.id := by
   unfold unmarshal at h
-  cases hi : indexOf comma m with
+  cases hi : lastIndexOf comma m with
   | none => simp [hi] at h
   | some idx =>
     simp only [hi] at h
-    obtain ⟨pre, post, hm, hlen, hpre⟩ := indexOf_some hi
+    obtain ⟨pre, post, hm, hlen, hpost⟩ := lastIndexOf_some hi
     by_cases h2 : m.length < 2
     · simp [h2] at h
     · simp only [h2, if_false] at h
@@ -87,7 +111,7 @@ theorem unmarshal_sound {m : Bytes} {c : Cmd} (h : unmarshal m = some c) :
         simp only at h
         cases pre with
         | nil =>
-          -- the first byte is the comma: neither R nor U
+          -- the first byte is the (last) comma: neither R nor U
           simp at hm
           have ha : a = comma := hm.1
           subst ha
@@ -96,7 +120,6 @@ theorem unmarshal_sound {m : Bytes} {c : Cmd} (h : unmarshal m = some c) :
           simp at hm
           obtain ⟨hap, hmd⟩ := hm
           subst hap
-          have hpre' : comma ∉ pre' := fun e => hpre (by simp [e])
           have hidx : idx = pre'.length + 1 := by simp at hlen; omega
           subst hidx
           have htake : List.take (pre'.length + 1 - 1) msgData = pre' := by
@@ -107,13 +130,12 @@ theorem unmarshal_sound {m : Bytes} {c : Cmd} (h : unmarshal m = some c) :
           by_cases hr : a = Action.register.byte
           · simp [hr] at h
             subst h
-            exact ⟨by simp [marshal, hr, hmd], hpre'⟩
+            exact ⟨by simp [marshal, hr, hmd], hpost⟩
           · by_cases hu : a = Action.unregister.byte
             · simp [hu, unregister_ne_register] at h
               subst h
-              exact ⟨by simp [marshal, hu, hmd], hpre'⟩
+              exact ⟨by simp [marshal, hu, hmd], hpost⟩
             · simp [hr, hu] at h
-
 
 /-! ## the key order of `SortedKeys` -/
 
